@@ -196,10 +196,18 @@ def check_evaluation_budgets(h: Harness):
                     f"{r.desc}: counter at the budget checks = {r.counts}; expected the first check with counter >= {n} and a total < {n} + {r.bound}",
                     replay, nontrivial=len(r.counts) > 1)
         elif frozen(r):
-            h.fail(r.site, "never-terminates",
+            # the open finding covers steps that create no new individual only; a frozen counter under
+            # a step that does create new individuals is a different failure
+            h.fail(r.site, "never-terminates" if (step_name in NON_PROGRESSING) else "never-terminates-although-new-individuals-are-created",
                    f"{r.desc}: still running after {len(r.counts)} budget checks; the counter is stuck at {r.counts[-1]} < {n} "
                    f"(counter at the checks: {r.counts[:6]}…) and every generation re-presents the same individuals "
                    f"{sorted(x[0] for x in r.iters[-1][0])}", replay)
+        elif len(set(r.counts[-max(2, len(r.counts) // 2):])) == 1:
+            # the counter has not moved for half of the checks although NEW individuals keep being presented:
+            # evaluations are happening without being counted, or not happening at all
+            h.fail(r.site, "never-terminates-although-new-individuals-are-created",
+                   f"{r.desc}: still running after {len(r.counts)} budget checks; the counter is stuck at {r.counts[-1]} < {n} "
+                   f"(counter at the checks: {r.counts[:6]}…) while each generation presents different individuals", replay)
         else:
             h.notes.append(f"{r.desc}: check cap {cap} reached while the counter was still moving ({r.counts[-6:]}); no verdict")
             h.count("evals:cap-without-lasso")
@@ -209,7 +217,7 @@ def check_evaluation_budgets(h: Harness):
         one("opo", None, None, n)
         for size in range(1, S + 1):
             one("hc", size, None, n)
-            steps = PROGRESSING if h.thorough else [PROGRESSING[(n + size) % len(PROGRESSING)]]
+            steps = PROGRESSING if h.thorough else [PROGRESSING[(n + size) % len(PROGRESSING)], "mutation(1);tournament"][: (2 if n % 4 == 0 else 1)]
             for st in steps:
                 one("gp", size, st, n)
     # steps that create no new individual: the counter cannot move
